@@ -77,3 +77,9 @@ CONFIG = {
         "Sign() has its own theorem (no_panic_sign, no hypothesis on the signatures member since fix 679c22b); the accessor sweep after Redact(), after Sign() and on the event SetUnsigned() returns is exercised by fuzz.event on every accepted event (events with a case variant of a struct field name or a repeated member name - D3, the content-forgery shapes - are refused on receipt since fixes 7c511f2 / 849cf70)",
     ],
 }
+# statement-by-statement translation of small pure Go functions (tools/extract/trans.go -> lean/VGen/TransJson.lean) and the
+# theorems that the translated definitions equal the model's, for all inputs (lean/VProps/TransJson.lean)
+CONFIG["lean"] = list(CONFIG["lean"]) + ["VProps.TransJson"]
+CONFIG["sources"] = list(CONFIG["sources"]) + ['VProps/TransJson.lean', 'VModel/GoSem.lean']
+CONFIG["theorems"] = list(CONFIG["theorems"]) + ['V.Trans.Json.isNegativeZeroLiteral_eq_model', 'V.Trans.Json.readHexDigits_total']
+CONFIG["trusted"] = list(CONFIG["trusted"]) + ["tools/extract/trans.go: the Go-to-Lean translation of the whitelisted functions and the Go semantics of lean/VModel/GoSem.lean (DESIGN.md §14)"]
